@@ -749,7 +749,7 @@ class Backend:
         if workdir:
             reasons.append('to set workdir')
 
-        if any('\n' in c for c in es.cmd_args):
+        if any('\n' in c or '\r' in c for c in es.cmd_args):
             reasons.append('because command contains newlines')
 
         if env and env.varnames:
